@@ -152,6 +152,9 @@ impl Prop for C13 {
         v.push(GenSpec::random("polyomino", tier.pick(3_000, 300_000)));
         v.push(GenSpec::random("chamfer45", tier.pick(2_000, 200_000)));
         v.push(GenSpec::random("star", tier.pick(3_000, 300_000)));
+        // triangles and convex quadrilaterals with coordinates up to 2^29 (inside the 32-bit GDSII range, products of differences beyond 2^53),
+        // queried at lattice points within two units of their long slanted edges
+        v.push(GenSpec::random("huge-coordinates", tier.pick(2_000, 200_000)));
         v.push(GenSpec::random("rects-random", tier.pick(2_000, 100_000)));
         v.push(GenSpec::random("paths", tier.pick(3_000, 300_000)));
         v
@@ -224,6 +227,41 @@ impl Prop for C13 {
                 } else {
                     cx.count("rejected_not_simple");
                 }
+            }
+            "huge-coordinates" => {
+                let big = 1i64 << *cx.rng.pick(&[24u32, 26, 27, 28, 29]);
+                let c = |r: &mut Rng| r.range(-big, big);
+                let poly: Vec<P> = loop {
+                    let n = 3 + cx.rng.usize(2);
+                    let mut v: Vec<P> = (0..n).map(|_| (c(&mut cx.rng), c(&mut cx.rng))).collect();
+                    if cx.rng.bool() {
+                        // a long edge with slope close to 1 from the origin-ish corner (the classic worst case for rounded cross products)
+                        let m = big - cx.rng.range(0, 3);
+                        v = vec![(0, 0), (m, m + 1), (m, 0)];
+                        if cx.rng.bool() {
+                            v.reverse();
+                        }
+                    }
+                    if is_simple(&v) && area2(&v) != 0 {
+                        break v;
+                    }
+                };
+                let mut qs: Vec<P> = Vec::new();
+                for i in 0..poly.len() {
+                    let (a, b) = (poly[i], poly[(i + 1) % poly.len()]);
+                    for _ in 0..6 {
+                        let k = cx.rng.range(0, 1000) as i128;
+                        let f = ((a.0 as i128 + (b.0 - a.0) as i128 * k / 1000) as i64, (a.1 as i128 + (b.1 - a.1) as i128 * k / 1000) as i64);
+                        qs.push((f.0 + cx.rng.range(-2, 2), f.1 + cx.rng.range(-2, 2)));
+                    }
+                    // right at the ends of the edge
+                    qs.push((b.0 - (b.0 - a.0).signum(), b.1 - (b.1 - a.1).signum()));
+                    qs.push((b.0 - (b.0 - a.0).signum(), b.1 - 2 * (b.1 - a.1).signum()));
+                }
+                cx.nontrivial(crate::rt::prng::strhash(&format!("{:?}", poly)));
+                cx.count("huge_shapes");
+                self.check_poly(cx, &poly, &qs, "huge");
+                cx.sample(|| json!({"polygon": poly, "queries": qs.len()}));
             }
             "rects-random" => {
                 let c = |r: &mut Rng| r.range(-1_000_000, 1_000_000);
